@@ -346,6 +346,42 @@ func runC19(p *Prog, r *Report, tier string) {
 		r.Check(topicOK, "R-VALUE.frame", fnKey(snd)+": topic", p.instrPos(sendIn), "kp.input.KafkaTopic", "the message is not published on the configured topic", true)
 		r.Check(valOK, "R-VALUE.frame", fnKey(snd)+": payload = 4-byte big-endian length + protobuf bytes, in a fresh buffer", p.instrPos(sendIn), "append(make([]byte,4) with BigEndian.PutUint32(len(bytes)), bytes...)", whyV, true)
 	}
+	// acknowledgements: when success logging is on, the acknowledgement of a record is consumed in the same call that sent
+	// it (sarama's Successes channel must be drained while sending, otherwise the producer stops accepting input)
+	if sendIn != nil {
+		q := &pathQuery{discharge: func(in ssa.Instruction) bool {
+			u, ok := in.(*ssa.UnOp)
+			if !ok || u.Op != token.ARROW {
+				return false
+			}
+			c, ok := u.X.(*ssa.Call)
+			return ok && c.Call.IsInvoke() && c.Call.Method.Name() == "Successes"
+		}, prune: func(from *ssa.BasicBlock, si int) bool {
+			i := ifOf(from)
+			return i != nil && isFieldLoad(i.Cond, "pkg/kafka/producer.ProducerInput.KafkaLogSuccesses") && si == 1
+		}}
+		trail, bad := q.find(sendIn)
+		r.Check(!bad, "R-ORDER.ack", fnKey(snd)+": success acknowledgement consumed right after the send", p.instrPos(sendIn), "with KafkaLogSuccesses every path after the send reads producer.Successes()",
+			"with success logging enabled a record's acknowledgement is not consumed in the call that sent it: the bounded Successes channel fills up during a large message and the producer stops accepting input, so the remaining records are never published; path "+p.describePath(snd, trail), true)
+	}
+	// convertors are stateless: no package-level variable is touched while converting
+	for _, f := range p.RepoFns {
+		if !keyInPkg(fnKey(f), "pkg/kafka/producer/convertor/test") {
+			continue
+		}
+		eachInstr(f, func(in ssa.Instruction) {
+			for _, op := range in.Operands(nil) {
+				if op == nil || *op == nil {
+					continue
+				}
+				if gl, ok := (*op).(*ssa.Global); ok && gl.Pkg != nil && strings.HasSuffix(gl.Pkg.Pkg.Path(), "pkg/kafka/producer/convertor/test") {
+					r.Violation("R-PURE.convertor", fnKey(f)+": uses package-level state "+gl.Name(), p.instrPos(in),
+						"a convertor keeps state across records (package-level variable): what is published for a record depends on earlier records / other exporters using the same template id")
+				}
+			}
+		})
+	}
+	r.OK("R-PURE.convertor", "pkg/kafka/producer/convertor/test: convertors reference no package-level variables", "pkg/kafka/producer/convertor/test", "conversion of a record depends on that record and its message only", true)
 	// consumer side
 	dc := p.Fn("(*pkg/kafka/consumer.KafkaConsumer).DecodeAndPrintMsg")
 	delim, okC := pkgConst(p, modPath+"/pkg/kafka/consumer", "msgDelimitLen")
